@@ -470,7 +470,25 @@ var vfC12Targets = []vfC12Target{
 		}
 		return deep
 	}},
-	{name: "manifest", seeds: vfFileSeed("manifest"), run: func(w *vfC12World, d []byte) bool {
+	{name: "manifest", seeds: func(w *vfC12World) [][]byte {
+		out := [][]byte{w.files["manifest"]}
+		// manifests written by the real writer with the largest metadata the format allows (255 pairs) and one less
+		for _, n := range []int{254, 255} {
+			var m indexmeta.Meta
+			for i := 0; i < n; i++ {
+				m.Add([]byte{byte(i)}, []byte{byte(i), 1})
+			}
+			p := filepath.Join(w.dir, fmt.Sprintf("mf-seed-%d", n))
+			os.Remove(p)
+			if mf, err := manifest.NewManifest(p, m); err == nil {
+				mf.Close()
+				if b, err := os.ReadFile(p); err == nil {
+					out = append(out, b)
+				}
+			}
+		}
+		return out
+	}, run: func(w *vfC12World, d []byte) bool {
 		p := filepath.Join(w.dir, fmt.Sprintf("mf-%d", time.Now().UnixNano()))
 		os.WriteFile(p, d, 0o644)
 		defer os.Remove(p)
